@@ -194,7 +194,13 @@ func judge(c Case) (vs []evid.Violation) {
 	}
 	bit := uint(c.FlipBit % 256)
 	one := big.NewInt(1)
+	two256 := new(big.Int).Lsh(one, 256)
 	alts := []alt{
+		// values that agree with the genuine one in their low 256 bits (an implementation that narrows to 32 bytes)
+		{"R+2^256", new(big.Int).Add(sig.R, two256), sig.S},
+		{"S+2^256", sig.R, new(big.Int).Add(sig.S, two256)},
+		{"R+n", new(big.Int).Add(sig.R, secp.N), sig.S},
+		{"S+n", sig.R, new(big.Int).Add(sig.S, secp.N)},
 		{"R+1", new(big.Int).Add(sig.R, one), sig.S},
 		{"R-1", new(big.Int).Sub(sig.R, one), sig.S},
 		{"S+1", sig.R, new(big.Int).Add(sig.S, one)},
@@ -546,6 +552,15 @@ func TestCheck(t *testing.T) {
 		c.KeyTrim = c.Key[:2] == "00" && rapid.Bool().Draw(rt, "keyTrim")
 		if c.Direct {
 			c.Msg = gen.HexBytes(rt, "digest", 32)
+			if rapid.IntRange(0, 5).Draw(rt, "digest.special") == 0 {
+				// every 32-byte string is a digest: zero, all ones, and the neighbours of the curve order n and the field prime p
+				sp := []*big.Int{big.NewInt(0), big.NewInt(1), new(big.Int).Sub(gen.Pow2(256), big.NewInt(1)),
+					new(big.Int).Sub(secp.N, big.NewInt(1)), new(big.Int).Set(secp.N), new(big.Int).Add(secp.N, big.NewInt(1)),
+					new(big.Int).Sub(secp.P, big.NewInt(1)), new(big.Int).Set(secp.P), new(big.Int).Add(secp.P, big.NewInt(1)), new(big.Int).Set(secp.HalfN)}
+				b := make([]byte, 32)
+				rapid.SampledFrom(sp).Draw(rt, "digest.value").FillBytes(b)
+				c.Msg = hex.EncodeToString(b)
+			}
 		} else {
 			c.Msg = gen.HexBytes(rt, "msg", gen.Len(rt, "msg.len", 4096))
 		}
